@@ -21,6 +21,7 @@ func TestMain(m *testing.M) {
 		"rapid state machine on a real server with the harness connector: before every command a fault schedule is drawn (per call of CreateMessage, AddMessagesToMailbox, RemoveMessagesFromMailbox, MoveMessages: success / generic error / ErrMessageSizeExceedsLimits); commands: APPEND of fresh messages, byte-identical repeats, variants differing only in content rfc822.GetMessageHash does not cover (other header fields, transfer encoding of a text part, multipart boundary) or only in content it covers (Cc, To address, subject, body text, leaf Content-Type), bytes fetched from the server (with its id line); UID COPY / UID MOVE of one message or a range between ordinary mailboxes and out of `Recovered Messages`; STORE \\Deleted + EXPUNGE / UID EXPUNGE / CLOSE inside it; APPEND to / CREATE (also an inferior) / RENAME from / RENAME to / DELETE / COPY into / MOVE into it in drawn letter cases; LIST / LSUB with several patterns; server restart. Oracle after every command, on fresh views (new session, EXAMINE + BODY.PEEK[]) of every mailbox, two-sided: APPEND answered OK => the target holds the literal behind one `X-Pm-Gluon-Id` line under the announced APPENDUID; APPEND answered NO after a generic remote failure => `Recovered Messages` holds the exact literal (no id line added) unless it already holds a message of the same identity, never two of one identity; size refusal => recovery unchanged or + the literal; NO without a failing connector call is reported; refused commands change nothing; COPY/MOVE answered OK put the exact bytes (out of recovery: behind a fresh id line) under the COPYUID uids, MOVE removes the source; every other message keeps uid and bytes; LIST \"\" * = the ordinary mailboxes plus `Recovered Messages` exactly while its fresh view is non-empty. Non-trivial: a case with >= 1 remote failure of an APPEND followed by an APPEND of the same bytes, or a MOVE out of the recovery mailbox answered OK; distinct by hash of the operation sequence.",
 		"distinct message = identity by construction: specs of one identity differ only in content the doc comment of rfc822.GetMessageHash excludes; TestGenerator_IdentityMatchesHash checks that the generator and the hash agree on every spec",
 		"one fresh message in six is damaged (a text part declared base64 whose body is not base64): APPEND accepts it, rfc822.GetMessageHash fails on it, so it cannot be recognised as a duplicate; it must be kept when the remote refuses it, a second copy after a repeated APPEND is not judged",
+		"the machine runs against a remote without de-duplication; a second property (TestC20DedupRemoteMoveOut) runs MOVE / COPY out of the recovery mailbox against a remote that answers CreateMessage with the ID of a message it holds already, with a direct oracle (the target holds the bytes, MOVE empties what it named, nothing else disappears)",
 		"connector policy silent, folder semantics for MoveMessages, no literal de-duplication by the remote",
 		"one client session brought up to date by SELECT before every COPY/MOVE/STORE; stale views are the subject of C01/C02/C16")
 }
